@@ -30,7 +30,7 @@ without reference to what the generators draw). Wave 4 ({waves.get('4',0)} chang
 purpose and is marked as such: those agents were additionally told, in prose, which
 configurations, shapes, sizes and fault kinds the generators draw and were asked for changes such
 a checker would still miss - they are adversarial to the machinery, not independent of it. Wave 5
-({waves.get('5',0)} changes) and waves 6 to 10 ({waves.get('6',0)}+{waves.get('7',0)}+{waves.get('8',0)}+{waves.get('9',0)}+{waves.get('10',0)} changes) went back to the property text alone (plus the list of earlier
+({waves.get('5',0)} changes) and waves 6 to 11 ({waves.get('6',0)}+{waves.get('7',0)}+{waves.get('8',0)}+{waves.get('9',0)}+{waves.get('10',0)}+{waves.get('11',0)} changes) went back to the property text alone (plus the list of earlier
 changes to avoid).
 "yes" = caught by the quick tier of the machinery as it was when the change arrived; "after
 strengthening" = first missed, then caught after the generator or oracle was extended (the last
@@ -61,7 +61,10 @@ local time zone, and more value classes (Stringer integer types, fractional coun
 shifts by hundreds, one member listed twice); wave 10 one oracle error of the harness (C13 read the
 list of assets back from the Backtest value, so an empty list made the per-asset checks vacuous)
 and three generator gaps (repositories built by the public factory, windows of a trading year,
-stop-loss percentages of 1 and more).
+stop-loss percentages of 1 and more); wave 11 one more seam gap (a goroutine that loops without
+ever blocking gave no verdict: loops are counted now) and size classes throughout (documents,
+histories, backlogs and helper inputs longer than any internal buffer), compounds built by the
+registry functions, a failing JSON sink.
 
 | seeded change | wave | what it does | needs | caught at once? | check and verdict |
 |---|---|---|---|---|---|
